@@ -285,11 +285,19 @@ def readFiles : BList → Option (List FileM)
     | some f, some r => some (f :: r)
     | _, _ => none
 
+/-- serde identifies every key of a struct's dictionary — unknown ones too — as a string: a key that
+is not valid UTF-8 fails the whole read (observed for the metainfo and info dictionaries; dictionaries
+below them are buffered and keep their raw keys) -/
+def keysUtf8 : BDict → Bool
+  | .nil => true
+  | .cons k _ t => isUtf8 k && keysUtf8 t
+
 /-- `Info` via serde: required `name`, `piece length`, `pieces` (multiple of 20), flattened untagged mode
 (`length` first, else `files`), optional `private` (0/1), `source`, `update-url` (accepted by `urlOk`) -/
 def readInfoC (urlOk : Bytes → Bool) (buf : Bytes) : Option InfoM :=
   match decodeTop 2048 buf with
   | some (.dict d, _) =>
+    if !keysUtf8 d then none else
     match d.lookup (str "name"), d.lookup (str "piece length"), d.lookup (str "pieces") with
     | some (.bytes name), some (.int false pl), some (.bytes pieces) =>
       if !(isUtf8 name && decide (pl < 2 ^ 64) && decide (pieces.length % 20 = 0)) then none else
